@@ -18,8 +18,9 @@ CLAIM = dict(
          "written as the code is, for ARBITRARY user rate / transition / influence-set functions (Section variables) with non-negative rates and a "
          "covering influence set: after the initial fill and after every event the weighted _ListDict_ holds exactly {u -> rate(u, current statuses) | rate > 0}; "
          "the next node is drawn with probability rate(u)/sum, the waiting time has rate = that sum, the new status is the chooser's answer; the loop ends "
-         "exactly when the sum is 0 or t >= tmax; no IndexError/KeyError can occur; rows count the statuses; the whole program equals (same calls to the "
-         "random source, same outputs) the textbook direct method that recomputes every rate from scratch. Tie: extracted model vs /repo on random and "
+         "exactly when the sum is 0 or t >= tmax; the loop cannot raise (no expovariate(0), no choice([])) - the only failures are a missing IC entry and the full-data constructor; "
+         "rows count the replayed statuses; for every draw script the whole program equals (same calls to the random source, same outputs incl. the arguments of every user callback) "
+         "the textbook direct method that recomputes every rate from scratch. Tie: extracted model vs /repo on random and "
          "exhaustively enumerated draw scripts (threshold/SIS/SIR/cascade/long-range families and arbitrary rate tables; string/tuple labels and statuses), "
          "comparing every call to the random source, the outputs and the arguments every user callback received. An independent Python oracle replays the "
          "implementation's trace against rates recomputed from scratch; a separate binary64 search looks for rate tables whose running total does not cancel.",
